@@ -1,0 +1,69 @@
+//go:build verif
+// +build verif
+
+package wire
+
+// Verification hooks (build tag "verif"): count loop iterations of the two
+// graph loops per activation. Inert unless VERIF_HOOK_LOG / VERIF_STEP_CAP are
+// set in the environment.
+
+import (
+	"fmt"
+	"os"
+	"strconv"
+)
+
+type verifAct struct {
+	n     int
+	steps int
+}
+
+var (
+	verifActs    = map[string][]*verifAct{}
+	verifLogPath = os.Getenv("VERIF_HOOK_LOG")
+	verifCap     = func() int { c, _ := strconv.Atoi(os.Getenv("VERIF_STEP_CAP")); return c }()
+	verifLogFile *os.File
+)
+
+func verifEnter(site string, n int) {
+	verifActs[site] = append(verifActs[site], &verifAct{n: n})
+}
+
+func verifStep(site string) {
+	st := verifActs[site]
+	if len(st) == 0 {
+		return
+	}
+	a := st[len(st)-1]
+	a.steps++
+	if verifCap > 0 && a.steps > verifCap*(a.n+1)*(a.n+1) {
+		msg := fmt.Sprintf("VERIF-STEP-CAP site=%s n=%d steps=%d\n", site, a.n, a.steps)
+		verifWrite(msg)
+		os.Stderr.WriteString(msg)
+		os.Exit(96)
+	}
+}
+
+func verifLeave(site string) {
+	st := verifActs[site]
+	if len(st) == 0 {
+		return
+	}
+	a := st[len(st)-1]
+	verifActs[site] = st[:len(st)-1]
+	verifWrite(fmt.Sprintf("{\"site\":%q,\"n\":%d,\"steps\":%d}\n", site, a.n, a.steps))
+}
+
+func verifWrite(s string) {
+	if verifLogPath == "" {
+		return
+	}
+	if verifLogFile == nil {
+		f, err := os.OpenFile(verifLogPath, os.O_APPEND|os.O_CREATE|os.O_WRONLY, 0644)
+		if err != nil {
+			return
+		}
+		verifLogFile = f
+	}
+	verifLogFile.WriteString(s)
+}
